@@ -30,6 +30,10 @@ fn prop_by_id(id: &str) -> Option<Box<dyn Prop>> {
         "C03" => Some(Box::new(props::c03::C03)),
         "C04" => Some(Box::new(props::c03::C04)),
         "C06" => Some(Box::new(props::c06::C06)),
+        "C07" => Some(Box::new(props::c07::C07)),
+        "C08" => Some(Box::new(props::c08::C08)),
+        "C11" => Some(Box::new(props::c11::C11)),
+        "C20" => Some(Box::new(props::c20::C20)),
         "C09" => Some(Box::new(props::c09::C09)),
         "C10" => Some(Box::new(props::c10::C10)),
         "C15" => Some(Box::new(props::c15::C15)),
